@@ -299,6 +299,34 @@ def c03(scn):
     return fails
 
 
+def c03_areas(scn):
+    """the cell areas `accumulate` integrates the source over are the grid's cell areas: the array
+    the harness read from the grid for the accumulate call equals the one `grid_common` reported,
+    and for structured grids it is the product of the spacings (meshes: judged by the C18 oracle,
+    which runs on the same scenario)"""
+    fails = []
+    gc = None
+    for c in scn.calls:
+        if c.cmd == "grid_common" and "area" in c.O:
+            gc = c.O["area"]
+    if gc is None:
+        return fails
+    t = scn.calls[0].toks
+    want = None
+    if len(t) > 5 and t[1] == "raster":
+        want = bits(unhx(t[4]) * unhx(t[5]))
+    elif len(t) > 3 and t[1] == "profile":
+        want = bits(unhx(t[3]))
+    if want is not None and any(bits(unhx(x)) != want for x in gc):
+        fails.append(("cell_area_is_spacing_product", "nodes_areas() differs from the product of the spacings"))
+    for c in scn.calls:
+        if c.cmd == "acc" and c.i("area") is not None:
+            if list(c.i("area")) != list(gc):
+                fails.append(("accumulate_uses_grid_cell_areas", "line %d: the areas used for accumulate differ from nodes_areas()" % c.li))
+                break
+    return fails
+
+
 # --------------------------------------------------------------------------- C04 / C05
 
 def last_router(ops):
